@@ -521,6 +521,43 @@ pub fn run_filter_tcp(cfg: &ScenCfg, out: &mut RunOut) {
     let n = 1 + choose(6) as usize;
     let mut samples = Vec::new();
     let mut tx = 0u16;
+    // a burst: several peers are already waiting in the listen queue when the server gets to accept; each is
+    // judged by its own address
+    if chance(1, 3) {
+        let k = 2 + choose(3) as usize;
+        let mut burst = Vec::new();
+        for i in 0..k {
+            let ip = gen_peer_ip(base);
+            hash_bytes(&mut wl, format!("{}", ip).as_bytes());
+            match net::connect_from(addr, SocketAddr::new(ip, 2500 + i as u16)) {
+                Some(p) => burst.push((ip, p)),
+                None => {
+                    out.violate("C16", "not_listening", "server is not listening".into());
+                    return;
+                }
+            }
+        }
+        kernel::settle();
+        out.probe("filter_burst_connect");
+        for (ip, p) in &burst {
+            tx = tx.wrapping_add(1);
+            let (req, rep) = sentinel(tx, 3);
+            let calls_before = rig.journal.lock().unwrap().len();
+            p.write(&req);
+            kernel::settle();
+            let got = p.take_received();
+            let want = spec.matches(*ip);
+            if !want && (rig.journal.lock().unwrap().len() != calls_before || !got.is_empty() || !p.remote_closed()) {
+                out.violate("C16", "non_matching_peer_served", format!("filter {:?}: peer {} (one of {} connecting at once: {:?}) does not match but received {} bytes (closed={})", spec, ip, k, burst.iter().map(|b| b.0).collect::<Vec<_>>(), got.len(), p.remote_closed()));
+                return;
+            }
+            if want && got != rep {
+                out.violate("C16", "matching_peer_not_served", format!("filter {:?}: peer {} (one of {} connecting at once: {:?}) matches but got {}", spec, ip, k, burst.iter().map(|b| b.0).collect::<Vec<_>>(), hex(&got)));
+                return;
+            }
+            out.ops_checked += 1;
+        }
+    }
     for i in 0..n {
         let ip = gen_peer_ip(base);
         hash_bytes(&mut wl, format!("{}", ip).as_bytes());
